@@ -2,6 +2,8 @@ import JanetModel.Wait.EpochCount
 import JanetModel.Wait.RoundRN
 import JanetModel.Gen.Wait
 import JanetModel.Gen.WaitCb
+import JanetModel.Gen.WaitBoot
+import JanetModel.Wait.GatherRef
 /-
 C07 — a suspended fiber is resumed only by what it is currently waiting for.
 
@@ -664,6 +666,112 @@ example : sites.length ≥ 60 ∧ (∀ c ∈ [SiteClass.listenerCallback, .chanG
     ∃ s ∈ sites, classify s = some c) := by decide
 
 end Callbacks
+
+/-! ### ev/gather sibling cancellation and ev/with-deadline (boot.janet), mirrored in Wait/Gather.lean -/
+section Gather
+open JanetModel.Wait.Callback JanetModel.Wait.Gather
+
+/-- tie: the four boot.janet forms, regenerated on every run (docstring dropped, locals renamed in order of binding), are the forms the
+mirrors were written from -/
+theorem boot_forms_are_the_mirrored_ones :
+    Sexp.beq Gen.WaitBoot.cancelAllForm GatherRef.cancelAllForm = true ∧
+    Sexp.beq Gen.WaitBoot.waitForFibersForm GatherRef.waitForFibersForm = true ∧
+    Sexp.beq Gen.WaitBoot.gatherForm GatherRef.gatherForm = true ∧
+    Sexp.beq Gen.WaitBoot.withDeadlineForm GatherRef.withDeadlineForm = true := by decide
+
+/-- ★ ev/gather cancels only its own fibers.  Whatever wait-for-fibers does with an event taken from the gather channel — drop the
+finished fiber from the set, or cancel-all with "sibling canceled" — and whatever its `defer` does on the way out ("parent
+canceled"), for the set in ANY iteration order: a fiber `h` that is not in the set keeps its generation, flags and listener, and
+its tasks in the run queue are exactly what they were; in particular the parent and unrelated tasks are not resumed by it. -/
+theorem gather_cancels_only_its_fibers (cfg : Cfg) (w : World) (fibers : List Nat) (h : Nat) (hn : h ∉ fibers)
+    (sigOk : Bool) (fiber : Nat) (r1 r2 : Val) :
+    ((gatherEvent cfg w fibers sigOk fiber r1).1.fibers h = w.fibers h ∧ tasksOf (gatherEvent cfg w fibers sigOk fiber r1).1 h = tasksOf w h) ∧
+    ((gatherEnd cfg w fibers r2).fibers h = w.fibers h ∧ tasksOf (gatherEnd cfg w fibers r2) h = tasksOf w h) ∧
+    (∀ g ∈ (gatherEvent cfg w fibers sigOk fiber r1).2.1, g ∈ fibers) := by
+  refine ⟨?_, cancelAll_other cfg fibers h hn r2 w, ?_⟩
+  · unfold gatherEvent
+    cases sigOk
+    · exact cancelAll_other cfg fibers h hn r1 w
+    · exact ⟨rfl, rfl⟩
+  · intro g hg
+    unfold gatherEvent at hg
+    cases sigOk
+    · simp at hg
+    · simp only [if_true] at hg
+      exact (List.mem_filter.mp hg).1
+
+/-- ★ a cancelled sibling leaves the wait it was in for good.  After cancel-all (any order, duplicates allowed) every fiber `f` of
+the set that was not already cancelled in this round has a higher generation: every registration it made for the wait it was
+blocked in (channel entry, timer, process-wait record, threaded await: all record the old generation) is stale — and by
+`stale_forever` stays stale for every continuation, so later activity on what the sibling waited for cannot reach it, even if
+it catches the "sibling canceled" error and blocks on something else. -/
+theorem gather_cancel_abandons_sibling_waits (cfg : Cfg) (hc : cfg.allChecked = true) (w : World) (fibers : List Nat) (reason : Val)
+    (f : Nat) (hf : f ∈ fibers) (hcan : (w.fibers f).canceled = false) (ops : List Op) :
+    live (run cfg (cancelAll cfg w fibers reason) ops) f (w.fibers f).schedId = false := by
+  obtain ⟨-, -, -, -, -, -, -, -, hb, -, -⟩ := allChecked_fields hc
+  have hlt : (w.fibers f).schedId < ((cancelAll cfg w fibers reason).fibers f).schedId := by
+    induction fibers generalizing w with
+    | nil => exact absurd hf (List.not_mem_nil)
+    | cons g gs ih =>
+      simp only [cancelAll, List.foldl_cons]
+      by_cases hg : g = f
+      · subst hg
+        have h1 := (cancel_live cfg hb w g reason hcan).1
+        have h2 := cancelAll_mono cfg gs reason (evCancel cfg w g reason) g
+        simp only [cancelAll, evCancel] at h2 ⊢
+        omega
+      · have hf' : f ∈ gs := by
+          rcases List.mem_cons.mp hf with h | h
+          · exact absurd h.symm hg
+          · exact h
+        have ho := cancel_other cfg w g f (fun e => hg e.symm) reason
+        have := ih (evCancel cfg w g reason) hf' (by simp only [evCancel]; rw [ho.1]; exact hcan)
+        simp only [cancelAll, evCancel] at this ⊢
+        rw [ho.1] at this
+        exact this
+  exact stale_forever cfg (cancelAll cfg w fibers reason) f (w.fibers f).schedId hlt ops
+
+/-- ★ ev/with-deadline guards exactly its task and its body.  The timer armed by the macro names the ROOT fiber of the caller as
+the fiber to cancel and the body coroutine as the fiber to check; when it expires while the body is resumable the task is
+cancelled with "deadline expired" in its current generation, no other fiber is touched; once the body has finished the timer is
+inert whatever happens afterwards (`deadline_inert_after_body_finished`). -/
+theorem with_deadline_guards_its_task_only (cfg : Cfg) (hc : cfg.allChecked = true) (w : World) (task body us : Nat) :
+    (∃ tm ∈ (withDeadline cfg w task body us).timers, tm.fiber = task ∧ tm.kind = .deadline body ∧ tm.when = w.now + deltaMs cfg us) ∧
+    (w.bodyDead body = false → (withDeadline cfg w task body us).bodies body = true) ∧
+    (withDeadline cfg w task body us).fibers = w.fibers ∧ (withDeadline cfg w task body us).queue = w.queue ∧
+    (∀ (w' : World) (tm : Timer), tm.fiber = task → tm.kind = .deadline body →
+      (w'.bodies body = false → fireTimer cfg w' tm = w') ∧
+      (∀ h, h ≠ task → (fireTimer cfg w' tm).fibers h = w'.fibers h ∧ ∀ t ∈ (fireTimer cfg w' tm).queue, t.fiber = h → t ∈ w'.queue)) := by
+  refine ⟨?_, ?_, ?_, ?_, ?_⟩
+  · refine ⟨{ when := w.now + deltaMs cfg us, fiber := task, schedId := (w.fibers task).schedId, kind := .deadline body,
+              start := w.now, durUs := us, epoch := (w.fibers task).epoch }, ?_, rfl, rfl, rfl⟩
+    unfold withDeadline addTimer step
+    by_cases hd : w.bodyDead body = true <;> simp [hd, mem_insertTimer]
+  · intro hd
+    simp [withDeadline, addTimer, step, hd]
+  · unfold withDeadline addTimer step
+    by_cases hd : w.bodyDead body = true <;> simp [hd]
+  · unfold withDeadline addTimer step
+    by_cases hd : w.bodyDead body = true <;> simp [hd]
+  · intro w' tm hf hk
+    have := deadline_scoped cfg hc w' tm body hk
+    exact ⟨this.1, fun h hne => this.2 h (hf ▸ hne)⟩
+
+/-- non-vacuity: gather with siblings 2 (blocked in a take on channel 0) and 3 (finished with an error): cancel-all cancels both, fiber 2
+gets the error in its current generation and its pending-reader entry is stale; bystander 4, blocked on the same channel, stays live -/
+example :
+    let w0 := run Cfg.full init [.spawn 2, .spawn 3, .spawn 4, .run, .run, .run, .take 2 0 false, .take 4 0 false, .fiberDead 3]
+    let w := (gatherEvent Cfg.full w0 [3, 2] false 3 (.err 5)).1
+    (w.queue.map (fun t => (t.fiber, t.isErr, t.expected))) = [(3, true, 3), (2, true, 3)] ∧
+    ((w.chans 0).rp.map (fun p => (p.fiber, live w p.fiber p.schedId))) = [(2, false), (4, true)] := by decide
+
+/-- non-vacuity: the with-deadline timer does fire while the body runs -/
+example :
+    let w := withDeadline Cfg.full (run Cfg.full init [.spawn 1, .run]) 1 7 3000
+    (w.timers.map (fun t => (t.when, t.fiber))) = [(3, 1)] ∧
+    ((fireTimer Cfg.full w (w.timers.head!)).queue.map (fun t => (t.fiber, t.value))) = [(1, .err 1)] := by decide
+
+end Gather
 
 /-! ### Non-vacuity -/
 
